@@ -24,6 +24,7 @@
 import LLFreeV.Proofs.TreeStats
 import LLFreeV.Proofs.ClassPartition
 import LLFreeV.Proofs.ConcUpperThreads
+import LLFreeV.Proofs.ConcChange
 namespace LLFree.C14
 open LLFree Prog
 
@@ -60,6 +61,17 @@ theorem conc_quiescent_partition (c : Cfg) (ok : CfgOk c) (H : Nat → Nat) (m :
     let m' := (concRun sched (m, fun k => Th.at (runU c (cmds k) ⟨[], []⟩))).1
     Runs m' (treeStats c) (fun s m'' => m' = m'' ∧ classSum s.classes = c.ntrees * c.tf ∧ classFree s.classes = s.freeFrames) :=
   treeStats_partition c _ ok (upper_conc_quiescent ok H m inv n cmds hvalid sched hsched hdone)
+
+/-- … and the same when the threads also change trees (class changes, `Offline`): the per-class
+    statistics at every quiescent end count every tree frame slot exactly once. -/
+theorem conc_quiescent_partition_with_tree_changes (c : Cfg) (ok : CfgOk c) (H : Nat → Nat) (m : Mem) (inv : UpperInv0 c H m)
+    (n : Nat) (cmds : Nat → List CCmd) (hvalid : ∀ k, ∀ x ∈ cmds k, x.valid c) (sched : List Nat) (hsched : ∀ k ∈ sched, k < n)
+    (hdone : ∀ k, k < n → ∃ held, ((concRun sched (m, fun k => Th.at (runUC c (cmds k) ⟨[], []⟩))).2 k).step
+      (concRun sched (m, fun k => Th.at (runUC c (cmds k) ⟨[], []⟩))).1 = .done held) :
+    let m' := (concRun sched (m, fun k => Th.at (runUC c (cmds k) ⟨[], []⟩))).1
+    Runs m' (treeStats c) (fun s m'' => m' = m'' ∧ classSum s.classes = c.ntrees * c.tf ∧ classFree s.classes = s.freeFrames) := by
+  obtain ⟨H', _, hinv⟩ := upper_conc_quiescent_change ok H m inv n cmds hvalid sched hsched hdone
+  exact treeStats_partition c _ ok hinv
 
 /-- the fold over the slots that `tree_stats` and `validate` use is the list fold over the
     present slots in class order -/
